@@ -19,7 +19,7 @@ RULE = ("case = (seed): a random spot path (3..40 dates, d = 1..3), strikes / ba
         "distinct seed")
 ASSUMPTIONS = ["LookBack is excluded (its process() raises by design)",
                "purity and identities are exact or 1e-12 relative (pure floating-point formulas)"]
-REQUIRED_COUNTERS = ["purity_checks", "representation_equivalence", "parity_identities", "barrier_identities", "average_bounds", "path_manager_pairs", "control_variate_products_on_paths",
+REQUIRED_COUNTERS = ["purity_checks", "representation_equivalence", "parity_identities", "barrier_identities", "average_bounds", "path_manager_pairs", "control_variate_products_on_paths", "shared_object_evaluations",
                      "default_time_checks", "nth_default_monotone", "notional_linearity"]
 MIN_NONTRIVIAL = {"quick": 100, "thorough": 2000}
 THOROUGH_ROUNDS = 15      # the thorough tier runs the generators this many times (different seeds)
@@ -179,6 +179,28 @@ def run_case(case, R):
                             f"{again.tolist()} on a product that evaluated other paths / representations before", wit)
             if np.any(fresh != 0):
                 nonzero = True
+        # two products built on the SAME underlying and payoff objects (a product and its control variate, two notionals of one trade), updated
+        # and evaluated in turn in either representation: every evaluation is the value of that product on that path
+        if len(vals) == 2 and case["seed"] % 2 == 0:
+            pa = make()
+            pb = Product(payoff_underlying=pa.payoff_underlying, payoff=pa.payoff, maturity=pa.maturity, notional=3.0 * pa.notional)
+            hr = np.random.default_rng(case["seed"] + 5)
+            seq = [(int(hr.integers(2)), PR.LOG if hr.random() < 0.5 else PR.IDENDITY) for _ in range(7)]
+            seq += [(0, PR.LOG), (1, PR.LOG), (0, PR.IDENDITY), (1, PR.LOG), (0, PR.IDENDITY), (1, PR.IDENDITY)]
+            for which, rep in seq:
+                prod_ = pb if which else pa
+                try:
+                    got_s = _eval(prod_, rep, times, S1, J1)
+                except Exception as exc:  # noqa: BLE001
+                    R.violation(f"{und_name}-evaluation-raises-shared-objects", f"{name} ({rep.name}): {type(exc).__name__}: {exc}", wit)
+                    break
+                R.hit("shared_object_evaluations")
+                want_s = vals[rep] * (3.0 if which else 1.0)
+                if not np.allclose(got_s, want_s, rtol=1e-10, atol=1e-12, equal_nan=True):
+                    R.violation(f"{und_name}-value-depends-on-the-products-sharing-its-objects", f"{name}: two products share their underlying and payoff objects; after the "
+                                f"sequence of (product, representation) updates {[(w, r.name) for w, r in seq[:seq.index((which, rep)) + 1]][-5:]} product {'B' if which else 'A'} "
+                                f"evaluated in {rep.name} gives {got_s.tolist()}, alone it gives {want_s.tolist()}", wit)
+                    break
         if len(vals) == 2:
             R.hit("representation_equivalence")
             if not np.allclose(vals[PR.IDENDITY], vals[PR.LOG], rtol=1e-10, atol=1e-12):
